@@ -91,7 +91,12 @@ func runBatch(u *vk.Unit, tag string, metas []pkgMeta) {
 	}
 	defer b.Remove()
 	for i, m := range metas {
-		out := b.Add(fmt.Sprintf("s%d", i), m.Meta.Spec(), regen.ClientServer(), m)
+		cfg := regen.ClientServer()
+		if m.Meta.HasExtras() {
+			cfg.IgnoreNotImplemented = []string{"all"}
+			u.Label("document-with-skipped-alternatives")
+		}
+		out := b.Add(fmt.Sprintf("s%d", i), m.Meta.Spec(), cfg, m)
 		u.Eval(1)
 		u.Label("generate:" + out.Class)
 		if out.Class != regen.OK {
@@ -253,6 +258,45 @@ func drawLarge(t *rapid.T) sampledBatch {
 			g := drawStruct("global")
 			m.Global = &g
 		}
+		// alternatives that the generator skips: a scheme of an unimplemented kind (named so that it
+		// sorts before / after the others) together with schemes the other alternatives use
+		withSkipped := rapid.IntRange(0, 2).Draw(t, "skipped") == 0
+		if withSkipped {
+			m.Unsupported = []string{"a_sso", "zz_sso"}
+		}
+		drawExtras := func(rs [][]c09x.Req, label string) []c09x.ExtraAlt {
+			if !withSkipped || len(rs) == 0 {
+				return nil
+			}
+			var out []c09x.ExtraAlt
+			for k, ne := 0, rapid.IntRange(0, 2).Draw(t, label+"-nextra"); k < ne; k++ {
+				alt := []c09x.Req{{Scheme: rapid.SampledFrom(m.Unsupported).Draw(t, "sso")}}
+				// share schemes with a real alternative (the interesting case) or bring fresh ones
+				src := rs[rapid.IntRange(0, len(rs)-1).Draw(t, "like")]
+				for _, r := range src {
+					if rapid.Bool().Draw(t, "share") {
+						alt = append(alt, c09x.Req{Scheme: r.Scheme, Scopes: r.Scopes})
+					}
+				}
+				if rapid.IntRange(0, 2).Draw(t, "fresh") == 0 {
+					alt = append(alt, c09x.Req{Scheme: fmt.Sprintf("s%d", rapid.IntRange(0, n-1).Draw(t, "freshidx"))})
+				}
+				// one scheme once
+				seen := map[string]bool{}
+				var uniq []c09x.Req
+				for _, r := range alt {
+					if !seen[r.Scheme] {
+						seen[r.Scheme] = true
+						uniq = append(uniq, r)
+					}
+				}
+				out = append(out, c09x.ExtraAlt{At: rapid.IntRange(0, len(rs)).Draw(t, "at"), Alt: uniq})
+			}
+			return out
+		}
+		if m.Global != nil {
+			m.GlobalExtra = drawExtras(*m.Global, "global")
+		}
 		nops := rapid.IntRange(2, 6).Draw(t, "nops")
 		for i := 0; i < nops; i++ {
 			op := c09x.Op{ID: fmt.Sprintf("op%d", i), Path: fmt.Sprintf("/o%d", i)}
@@ -263,6 +307,7 @@ func drawLarge(t *rapid.T) sampledBatch {
 			case m.Global == nil || rapid.IntRange(0, 3).Draw(t, "override") > 0:
 				st := withScopes(drawStruct("op"), schemes, i)
 				op.Security = &st
+				op.Extra = drawExtras(st, "op")
 			}
 			m.Ops = append(m.Ops, op)
 		}
